@@ -68,6 +68,7 @@ class Knobs:
     def __init__(self, **kw):
         self.latency = 0.0            # answer latency (virtual seconds)
         self.silent_from = None       # index into STEPS from which no answers are given
+        self.names_order = None       # callable(list of zones) -> the order they are listed in
         self.answer_gap = 0.0         # pause between a step's extra frames and its answer
         self.extra_when_silent = False  # the extra frames of a step are sent although unanswered
         self.silent_kinds = set()     # request kinds never answered
@@ -194,6 +195,9 @@ class SimConsole:
 
     def frame_names(self, pid=None, only=None):
         zs = [z for z in self.inst["zones"] if only is None or z["id"] in only]
+        if self.knobs.names_order is not None:
+            # every entry carries its own zone number: any order is the same answer
+            zs = self.knobs.names_order(zs)
         if self.gen == 4:
             body = b"".join(bytes([z["id"]]) + R._name_fixed(z["name"], 8) for z in zs)
             return self.f_ext(0xFF12, body, pid)
